@@ -18,6 +18,7 @@ package main
 // stream derived from -seed, so the Lean model can be given the sampled values.
 
 import (
+	"bytes"
 	crand "crypto/rand"
 	"encoding/binary"
 	"fmt"
@@ -336,6 +337,9 @@ func suiteOT(c *Ctx) {
 	st := otSetupOps(c)
 	otLayers(c, st)
 	otMultiply(c, st)
+	for i := 0; i < 3; i++ {
+		otMultiplySeq(c, st)
+	}
 	otAlterations(c, st)
 }
 
@@ -601,7 +605,14 @@ func otLayers(c *Ctx, st *otSetup) {
 	for _, kind := range kinds {
 		nb := sizes[idx%len(sizes)]
 		idx++
-		choices := choicePattern(c, kind, nb)
+		// the choice vector is a sub-slice of a larger caller buffer (as when several batches are carved out of one
+		// allocation): nothing behind the vector may be touched
+		cbuf := make([]byte, nb+64)
+		copy(cbuf, choicePattern(c, kind, nb))
+		for i := nb; i < len(cbuf); i++ {
+			cbuf[i] = 0xa5
+		}
+		choices := cbuf[:nb]
 		nonce := c.Bytes(12)
 		H := otCtx(nonce)
 		lr := newLogReader(c.Rng.Int63())
@@ -621,7 +632,7 @@ func otLayers(c *Ctx, st *otSetup) {
 		c.Emit("ext", J{"nonce": hx(nonce), "setup": st.asJSON, "choices": hx(choices), "kind": kind, "extra": hx(lr.log[0]),
 			"dump": J{"U": hexU(msg.CorreMsg.U), "X": hx(msg.X[:]), "T": feHex([4]uint64(msg.T)),
 				"V0": hex16s(V0), "V1": hex16s(V1), "VC": hex16s(rres.VerifDump())}},
-			J{"recomputed": true, "check": true, "choice": true, "err": ""})
+			J{"recomputed": true, "check": bytes.Equal(cbuf[nb:], bytes.Repeat([]byte{0xa5}, 64)), "choice": true, "err": ""})
 	}
 	// additive OT
 	lat := scalarLattice(c)
@@ -729,6 +740,40 @@ type altCase struct {
 	field string
 	index int
 	alter string
+}
+
+// otMultiplySeq: several multiplications on ONE setup in which each party feeds its own RUNNING context hash (not a
+// clone) into every multiplication, as a protocol does that keeps one transcript per party: the two transcripts must stay
+// in step, so every multiplication of the sequence must succeed and give shares that add up to the product.
+func otMultiplySeq(c *Ctx, st *otSetup) {
+	lat := scalarLattice(c)
+	nonce := c.Bytes(12)
+	Hs, Hr := otCtx(nonce), otCtx(nonce)
+	runs := []J{}
+	errStr := ""
+	withRand(newLogReader(c.Rng.Int63()), func() {
+		for k := 0; k < 3 && errStr == ""; k++ {
+			alpha, beta := scFromBig(lat[c.Intn(len(lat))]), scFromBig(lat[c.Intn(len(lat))])
+			sender := ot.NewMultiplySender(Hs, st.ss, otGroup.NewScalar().Set(alpha))
+			receiver, e := ot.NewMultiplyReceiver(Hr, st.rs, otGroup.NewScalar().Set(beta))
+			if e != nil {
+				errStr = fmt.Sprintf("use %d: NewMultiplyReceiver: %v", k+1, e)
+				break
+			}
+			ms, shareS, e := sender.Round1(receiver.Round1())
+			if e != nil {
+				errStr = fmt.Sprintf("use %d: sender.Round1: %v", k+1, e)
+				break
+			}
+			shareR, e := receiver.Round2(ms)
+			if e != nil {
+				errStr = fmt.Sprintf("use %d: receiver.Round2: %v", k+1, e)
+				break
+			}
+			runs = append(runs, J{"alpha": otScHex(alpha), "beta": otScHex(beta), "shareS": otScHex(shareS), "shareR": otScHex(shareR)})
+		}
+	})
+	c.Emit("mulseq", J{"nonce": hx(nonce), "runs": runs, "uses": 3}, J{"sum": errStr == "", "err": errStr})
 }
 
 func flipBit(b []byte, i int) {
